@@ -20,7 +20,7 @@ import os
 
 import numpy as np
 
-from vf import engines, fakeproc, scratch
+from vf import engines, fakeproc, scratch, watchdog
 from vf.explore import Chooser, explore
 
 LEVEL = "model_checking"
@@ -96,9 +96,12 @@ def lammps_run(ch, case, reverse, wd, menu):
     raised = None
     success = None
     try:
-        success, status = eng.propagate(path, ens, s, reverse=reverse)
+        with watchdog.limit(20):
+            success, status = eng.propagate(path, ens, s, reverse=reverse)
     except RuntimeError as e:
         raised = str(e)
+    except watchdog.Hang as e:
+        raised = "HANG: " + str(e)
     finally:
         world.unpatch()
     return dict(path=path, success=success, raised=raised, world=world, prog=progs[0] if progs else None, eng=eng)
@@ -116,6 +119,8 @@ def lammps_judge(r, case, reverse):
     ref_orders, ref_success = reference(frames, left, right, case["maxlen"])
     written = len(prog.written)
     died = proc.returncode not in (0, None) and not proc.killed
+    if r["raised"] is not None and r["raised"].startswith("HANG"):
+        return [("hang", r["raised"])]
     if r["raised"] is not None:
         if not died:
             bad.append(("raised-without-failure", f"propagate raised although the program did not fail: {r['raised'][:80]}"))
